@@ -23,7 +23,7 @@
        duplicated).  NOT proved: that no handler raises and that the budget sequence is finite
        (the UCS argument); checked by the oracle on every complete run of the correspondence
        (symmetric routes): quiescence is reached, nothing raised, every agent reported done. *)
-From PyDcop Require Import Base Net M_Ucs P_Ucs P_Ucs2 P_Ucs3 P_Ucs4 P_Ucs5 P_Ucs6.
+From PyDcop Require Import Base Net M_Ucs P_Ucs P_Ucs2 P_Ucs3 P_Ucs4 P_Ucs5 P_Ucs6 P_Ucs7 P_Ucs8.
 
 Theorem max_footprint_spec : forall C, wf C -> forall h, fp_nonneg h ->
   (forall S, NoDup S -> Z.of_nat (List.length S) <= c_ktarget C - 1 -> total_for h S <= max_footprint C h)
@@ -124,6 +124,33 @@ Theorem placement_inv : forall C, wf C -> uniq C -> forall cf n c hs,
   placed C cf n c hs /\ Z.of_nat (List.length hs) <= c_k C
   /\ forall h, is_agent C h = true -> mem_key Z.eqb c (s_hosted (w_st (nodes cf h))) = true -> In h hs.
 Proof. exact placement_inv_full_l. Qed.
+
+(* (3) the variant (P_Ucs7; NO guard needed): the measure
+       Phi = (4n+1) * (2 * #unvisited agents + #__hosting__ entries of the table) + position
+   (position = 2n - |rq| for a request, 2n + |rq| for an answer, n = number of agents) of the token
+   emitted by a handler is strictly smaller than that of the token it consumed, for every token in
+   flight of every reachable configuration and every state of the receiving agent; the tokens
+   created by replicate(k) start below Phi0 = (4n+1)*2n + 2n.  Hence a token makes at most
+   O(n^2) hops.  (The budget itself is not monotone: a round may restart with a smaller one.) *)
+Theorem ucs_token_variant : forall C cf s d m q t,
+  reachable (ucs_proto C) cf -> chan cf s d = m :: q -> tok_of m = Some t ->
+  forall st src d' m', In (d', m') (snd (fst (ucs_recv C d st src m))) -> (Phi C m' < Phi C m)%nat.
+Proof. exact ucs_token_variant_l. Qed.
+
+Theorem ucs_token_initial_measure : forall C me s k, is_agent C me = true ->
+  forall d m, In (d, m) (snd (fst (fst (replicate C me s k)))) -> (Phi C m < Phi0 C)%nat.
+Proof. exact replicate_Phi0. Qed.
+
+(* (3) termination bound (P_Ucs8; NO guard needed): [nhandled cf sched] counts the actions of the
+   schedule that make a running agent handle a message.  In EVERY schedule it is at most
+   Omega = sum over the agents d of (1 + #computations(d) * Phi0): after that many handled messages
+   nothing is left to deliver, so every fair schedule reaches a quiescent configuration, where by
+   ucs_quiescent_all_done (under the guards) every agent has reported done.  Global measure:
+   Psi = sum of the weights of the messages in flight (1 + Phi for a token, 1 + #comps * Phi0 for a
+   replicate order) + Omega while the orchestrator is not started; it never increases and
+   strictly decreases at every handled message (step_Psi). *)
+Theorem ucs_terminates : forall C sched, (nhandled C (init (ucs_proto C)) sched <= Omega C)%nat.
+Proof. exact ucs_terminates_l. Qed.
 
 (* non-vacuity: a well-formed 3-agent deployment (k = 2) and a complete schedule in which four
    replicas are accepted (one with a non-empty hosted set) and every agent reports done *)
